@@ -11,7 +11,7 @@ from ..opcheck import rel_close
 PROPERTY = "C10"
 LEVEL = "exploration"
 RULE = ("each case builds 3-14 tagged parameters (shapes of 1-3 dims, dims log-uniform in [1,4096], four tags, depth None or "
-        "1..1024; rarely an untagged one, a >=4-dim weight or no lr anywhere) arranged as bare list / generator / groups "
+        "1..1024; in a quarter of the cases 40% of them frozen; rarely an untagged one, a >=4-dim weight or no lr anywhere) arranged as bare list / generator / groups "
         "with or without own lr (float or 0-dim tensor), and passes them through scaled_parameters and one of the three "
         "optimizer classes (SGD with both readout settings). Every resulting group lr is compared with a rule table typed "
         "from the property text. Non-trivial = a tagged parameter whose expected factor != 1; distinct = (family, tag, ndim, "
